@@ -289,4 +289,81 @@ PROPS = {
             "assumptions": ["requestor and acceptor run in one process over loopback TCP; timeouts (8 s per socket operation, 20 s per hand-shake) make a scenario inconclusive"]},
     "C26": {"run": c26, "level": "fault_enumeration",
             "assumptions": ["scaled-down writers (M < 1018) are reachable only through the cfg(dicom_rs_verif) constructor; every scaled-down witness is re-executed at M = 1018 before it counts"]},
+def c25(ctx):
+    """Harness leg (write/read/prefix/strict/over-long monitors) + independent PS3.8 parser over
+    every encoding the harness wrote to pdus.jsonl."""
+    import ps38_parse
+    res = ctx.harness()
+    merged = ctx.chk.merge([res])
+    path = os.path.join(ctx.work, "pdus.jsonl")
+    n = 0
+    n_over = n_over_corrupt = 0
+    viol = {}
+    kinds = {}
+    for line in open(path):
+        rec = json.loads(line)
+        buf = bytes.fromhex(rec["hex"])
+        if rec["leg"] == "C-overlong":
+            # outputs of write_pdu for items that cannot be expressed (already reported by the
+            # harness): confirm independently that what was emitted is not a consistent PDU
+            n_over += 1
+            probs = [p for p in ps38_parse.validate_one(buf) if p[0] not in ps38_parse.SYNTAX_KINDS]
+            if probs:
+                n_over_corrupt += 1
+            continue
+        n += 1
+        kinds[rec["kind"]] = kinds.get(rec["kind"], 0) + 1
+        probs = ps38_parse.validate_one(buf, rec.get("expect"))
+        if (rec.get("info") or {}).get("lenient_syntax"):
+            probs = [p for p in probs if p[0] not in ps38_parse.SYNTAX_KINDS]
+        if probs:
+            kind, where, msg = probs[0]
+            key = "ps38|%s|%s|%s|%s" % (rec["leg"], rec["kind"], kind, where)
+            v = viol.setdefault(key, {
+                "key": key, "count": 0,
+                "what": "independent PS3.8 parser on the output of write_pdu (%d bytes): %s [%s]" % (
+                    len(buf), msg, where),
+                "replay": {"seed": ctx.seed, "stream": rec["stream"], "case": rec["case"],
+                           "leg": rec["leg"][:1], "written_hex": rec["hex"][:4096],
+                           "written_len": len(buf), "expected": rec.get("expect"),
+                           "problems": [list(p) for p in probs[:5]]}})
+            v["count"] += 1
+    if not os.environ.get("VERIF_KEEP"):
+        os.remove(path)  # can be several GB in the thorough tier
+    merged["violations"] += list(viol.values())
+    merged["evaluations"] += n
+    merged["counters"]["ps38_parser_validated"] = n
+    for k, c in sorted(kinds.items()):
+        merged["counters"]["ps38_parser_validated_" + k] = c
+    merged["counters"]["overlong_outputs_seen_by_ps38_parser"] = n_over
+    merged["counters"]["overlong_outputs_confirmed_inconsistent_by_ps38_parser"] = n_over_corrupt
+    merged["rules"].append("O-PS38 (oracles/ps38_parse.py, written from PS3.8 §9.3 / PS3.7 Annex D): every "
+                           "length field matches its content, no trailing bytes, reserved bytes zero, "
+                           "decoded content = abstract description of the generated PDU")
+    if not ctx.replay and n < 1000 and not merged.get("inconclusive"):
+        merged["inconclusive"] = "only %d encodings reached the PS3.8 parser (floor 1000)" % n
+    return merged
+
+
+PROPS = {
+    "C01": {"run": simple, "level": "exploration"},
+    "C25": {"run": c25, "level": "exploration",
+            "assumptions": [
+                "well-formed = AE titles / version names without leading or trailing spaces (PS3.8: "
+                "non-significant, the reader trims them), UIDs unpadded, RJ/ABORT codes enumerated in "
+                "PS3.8, Unknown PDU / sub-item types that the library does not decode itself",
+                "a PDU longer than 2^32-1 bytes is not constructible in memory and is not tried",
+            ]},
+    "C27": {"run": simple, "level": "fault_enumeration",
+            "assumptions": [
+                "the transport only segments/coalesces and may answer Pending; it never fails, reorders or "
+                "drops bytes (I/O failures are C34's subject)",
+                "every PDU of a sequence individually survives write_pdu→read_pdu (else the sequence is "
+                "skipped and counted: that is C25's subject)",
+            ]},
+    "C36": {"run": simple, "level": "exploration",
+            "assumptions": [
+                "titles are non-empty; socket addresses are those whose std text form is itself lossless "
+                "(IPv6 flow labels have no text form and are skipped, counted)",
+            ]},
 }
